@@ -7,6 +7,10 @@
 //	                          <sleep>:end          sleep, then Wait on a finished schedule
 //	                          <sleep>:<tok>:c      sleep, cancel the context, then Wait
 //	                          <sleep>:<tok>:k<ms>  sleep, Wait; the context is cancelled <ms> after Wait was entered
+//	st <last|none> <tok>      (nanoseconds, relative to a base instant 10 s in the past) a Waiter whose cached reading is
+//	                          preset to base+last (verif hook), one Wait for a token at base+tok: exact boundaries of the
+//	                          "due by the cached reading" and "cached reading proves >= 2 s" comparisons
+//	near <us> <us> ...        every Next() of the mock schedule returns time.Now()+<us> microseconds
 //	eng <discard 0|1> <tok,tok,...> <dur,dur,...>
 //	                          the REAL engine, one pool, one instance, the tokens of a mock shared schedule,
 //	                          a gun whose i-th Shoot sleeps dur_i, discard_overflow as given
@@ -15,12 +19,15 @@
 //
 //	w:   <ok><slow><not_early><late_enter><late_ret>   (IsSlowDown after Wait; measured instants before/after Wait
 //	                                                     against the token time and the 2 s window)
+//	st:  <ok><slow><refreshed><cached_exact>            (refreshed: the cached reading changed; cached_exact: it did not and
+//	                                                     overdue == cached reading - token)
+//	near: <ok><not_early>
 //	eng: <F|D><not_early><late2s><sample_ok>            (F fired / D reported as discarded; instant of Shoot entry or of
 //	                                                     the discard report against the token; D: net code 777 + tag)
 //
-// Every case is planned with a margin (>= 200 ms) around each comparison the code or the observation
-// makes, and the run is repeated when the measured instants leave the planned timeline by more than
-// 80 ms (a disturbed experiment says nothing about the code).
+// Every case is planned with a margin (>= 250 ms) around each comparison the code or the observation
+// makes. An attempt during which the canary (see below) saw the machine unable to keep time is
+// repeated (up to 8 times, then the observation is "disturbed": no information).
 package main
 
 import (
@@ -29,6 +36,7 @@ import (
 	"strconv"
 	"strings"
 	"sync"
+	"sync/atomic"
 	"time"
 
 	"github.com/yandex/pandora/core"
@@ -45,9 +53,28 @@ import (
 const (
 	ms        = int64(time.Millisecond)
 	window    = 2000 * ms
-	tolerance = 80 * ms
-	margin    = 200 * ms
+	margin    = 250 * ms
 )
+
+// ---- canary: is the machine able to keep time right now? ----
+//
+// A goroutine sleeps 5 ms in a loop; whenever such a sleep overshoots by more than 50 ms the
+// disturbance counter is bumped. An attempt during which the counter moved says nothing about the
+// code (the harness's own sleeps were off as well) and is repeated; this criterion does not look
+// at the code under test, so a Wait that hangs or returns at the wrong time is never excused.
+var disturbances atomic.Int64
+
+func canary() {
+	for {
+		t := time.Now()
+		time.Sleep(5 * time.Millisecond)
+		if time.Since(t) > 55*time.Millisecond {
+			disturbances.Add(1)
+		}
+	}
+}
+
+const maxAttempts = 8
 
 // ---- mock schedule: tokens at t0+offset, t0 = the instant of Start or of the first Next ----
 
@@ -175,9 +202,15 @@ func parseW(fields []string) []wstep {
 
 // planW: nominal enter instants and the smallest margin, for one variant
 func planW(steps []wstep, fixed bool) ([]int64, int64) {
+	e, _, m := planW2(steps, fixed)
+	return e, m
+}
+
+// planW2: nominal enter and return instants and the smallest margin, for one variant
+func planW2(steps []wstep, fixed bool) ([]int64, []int64, int64) {
 	s := &sim{fixed: fixed, minMargin: 1 << 62}
 	t := int64(0)
-	var enters []int64
+	var enters, rets []int64
 	done := false
 	for _, st := range steps {
 		t += st.sleep
@@ -186,6 +219,7 @@ func planW(steps []wstep, fixed bool) ([]int64, int64) {
 			if st.cancelPre {
 				done = true
 			}
+			rets = append(rets, t)
 			continue
 		}
 		ret := s.wait(st.tok, t)
@@ -203,18 +237,18 @@ func planW(steps []wstep, fixed bool) ([]int64, int64) {
 			s.cmp(ret - st.tok - window)
 		}
 		t = ret
+		rets = append(rets, t)
 	}
-	return enters, s.minMargin
+	return enters, rets, s.minMargin
 }
 
 func b(x bool) string { return vh.B(x) }
 
 func runW(fields []string) string {
 	steps := parseW(fields)
-	planned, _ := planW(steps, true)
-	planned2, _ := planW(steps, false)
 	var obs []string
-	for attempt := 0; attempt < 4; attempt++ {
+	for attempt := 0; attempt < maxAttempts; attempt++ {
+		before := disturbances.Load()
 		var offs []int64
 		for _, st := range steps {
 			if !st.end {
@@ -227,8 +261,7 @@ func runW(fields []string) string {
 		t0 := time.Now()
 		sched.Start(t0)
 		obs = obs[:0]
-		disturbed := false
-		for i, st := range steps {
+		for _, st := range steps {
 			time.Sleep(time.Duration(st.sleep))
 			if st.cancelPre {
 				cancel()
@@ -244,20 +277,17 @@ func runW(fields []string) string {
 			if timer != nil {
 				timer.Stop()
 			}
-			d1, d2 := enter-planned[i], enter-planned2[i]
-			if (d1 < -tolerance || d1 > tolerance) && (d2 < -tolerance || d2 > tolerance) {
-				disturbed = true
-			}
 			tok := st.tok
 			obs = append(obs, b(ok)+b(slow)+b(!ok || ret >= tok)+b(ok && enter-tok >= window)+b(ok && ret-tok >= window))
 		}
 		cancel()
-		if !disturbed {
-			break
+		if disturbances.Load() == before {
+			return strings.Join(obs, " ")
 		}
 	}
-	return strings.Join(obs, " ")
+	return "disturbed"
 }
+
 
 // ---- engine level ----
 
@@ -280,7 +310,8 @@ func (a *recAggr) Report(s core.Sample) {
 		return
 	}
 	at := time.Since(a.t0()).Nanoseconds()
-	good := ns.Tags() == netsample.DiscardedShootTag && strings.Contains(ns.String(), "\t"+strconv.Itoa(netsample.DiscardedShootCodeError)+"\t")
+	// the property's own words: net code 777, tag 'discarded' (literals on purpose, not the source's constants)
+	good := ns.Tags() == "discarded" && strings.Contains(ns.String(), "\t777\t")
 	a.mu.Lock()
 	*a.evs = append(*a.evs, event{discarded: true, at: at, sampleOK: good})
 	a.mu.Unlock()
@@ -352,10 +383,9 @@ func runEng(fields []string) string {
 	discard := fields[0] == "1"
 	toks := parseList(fields[1])
 	durs := parseList(fields[2])
-	p1, _ := planEng(discard, toks, durs, true)
-	p2, _ := planEng(discard, toks, durs, false)
 	var obs []string
-	for attempt := 0; attempt < 4; attempt++ {
+	for attempt := 0; attempt < maxAttempts; attempt++ {
+		before := disturbances.Load()
 		sched := &offSchedule{offs: toks}
 		var evs []event
 		aggr := &recAggr{evs: &evs, t0: func() time.Time { sched.mu.Lock(); defer sched.mu.Unlock(); return sched.t0 }}
@@ -379,14 +409,9 @@ func runEng(fields []string) string {
 		if err != nil {
 			obs = append(obs, "run-error")
 		}
-		disturbed := len(evs) != len(toks)
 		for i, e := range evs {
 			if i >= len(toks) {
 				break
-			}
-			d1, d2 := e.at-p1[i], e.at-p2[i]
-			if (d1 < -tolerance || d1 > tolerance) && (d2 < -tolerance || d2 > tolerance) {
-				disturbed = true
 			}
 			kind := "F"
 			if e.discarded {
@@ -397,9 +422,82 @@ func runEng(fields []string) string {
 		if len(evs) != len(toks) {
 			obs = append(obs, fmt.Sprintf("events=%d", len(evs)))
 		}
-		if !disturbed {
-			break
+		if disturbances.Load() == before {
+			return strings.Join(obs, " ")
 		}
+	}
+	return "disturbed"
+}
+
+type oneSchedule struct {
+	t    time.Time
+	used bool
+}
+
+func (s *oneSchedule) Start(time.Time) {}
+func (s *oneSchedule) Next() (time.Time, bool) {
+	if s.used {
+		return s.t, false
+	}
+	s.used = true
+	return s.t, true
+}
+func (s *oneSchedule) Left() int {
+	if s.used {
+		return 0
+	}
+	return 1
+}
+
+func runSt(fields []string) string {
+	base := time.Now().Add(-10 * time.Second)
+	var last time.Time
+	if fields[0] != "none" {
+		v, _ := strconv.ParseInt(fields[0], 10, 64)
+		last = base.Add(time.Duration(v))
+	}
+	v, _ := strconv.ParseInt(fields[1], 10, 64)
+	tok := base.Add(time.Duration(v))
+	w := coreutil.VerifNewWaiter(&oneSchedule{t: tok}, last, 0)
+	ctx := context.Background()
+	ok := w.Wait(ctx)
+	slow := w.IsSlowDown(ctx)
+	ln, od := w.VerifState()
+	refreshed := !ln.Equal(last)
+	return b(ok) + b(slow) + b(refreshed) + b(!refreshed && od == last.Sub(tok))
+}
+
+type nearSchedule struct {
+	us   []int64
+	i    int
+	last time.Time
+}
+
+func (s *nearSchedule) Start(time.Time) {}
+func (s *nearSchedule) Next() (time.Time, bool) {
+	if s.i >= len(s.us) {
+		return s.last, false
+	}
+	s.last = time.Now().Add(time.Duration(s.us[s.i]) * time.Microsecond)
+	s.i++
+	return s.last, true
+}
+func (s *nearSchedule) Left() int { return len(s.us) - s.i }
+
+func runNear(fields []string) string {
+	var us []int64
+	for _, f := range fields {
+		v, _ := strconv.ParseInt(f, 10, 64)
+		us = append(us, v)
+	}
+	sched := &nearSchedule{us: us}
+	w := coreutil.NewWaiter(sched)
+	ctx := context.Background()
+	var obs []string
+	for range us {
+		ok := w.Wait(ctx)
+		after := time.Now()
+		obs = append(obs, b(ok)+b(!after.Before(sched.last)))
 	}
 	return strings.Join(obs, " ")
 }
@@ -407,6 +505,12 @@ func runEng(fields []string) string {
 func runCase(c string) string {
 	f := strings.Split(c, " ")
 	switch f[0] {
+	case "st":
+		if len(f) == 3 {
+			return runSt(f[1:])
+		}
+	case "near":
+		return runNear(f[1:])
 	case "w":
 		return runW(f[1:])
 	case "eng":
@@ -500,6 +604,26 @@ func gen(r *vh.Rand, tier string) []string {
 		}
 		out = append(out, wLine(steps))
 	}
+	// exact boundaries through the preset-state hook
+	for _, last := range []int64{0, 1000000000} {
+		for _, d := range []int64{-3000000000, -2000000001, -2000000000, -1999999999, -1000000000, -1, 0, 1, 1000000000} {
+			out = append(out, fmt.Sprintf("st %d %d", last, last+d))
+		}
+	}
+	out = append(out, "st none 0", "st none 2000000000")
+	// tokens a few hundred microseconds ahead of / behind the call
+	nN := 8
+	if tier == "thorough" {
+		nN = 100
+	}
+	for i := 0; i < nN; i++ {
+		n := r.Range(1, 6)
+		var p []string
+		for j := 0; j < n; j++ {
+			p = append(p, strconv.Itoa(r.PickInt([]int{-500, -1, 0, 50, 200, 300, 500, 800, 999, 1500, 3000, 20000})))
+		}
+		out = append(out, "near "+strings.Join(p, " "))
+	}
 	cnt := 0
 	for cnt < nE {
 		discard := r.Chance(3, 4)
@@ -523,6 +647,7 @@ func gen(r *vh.Rand, tier string) []string {
 }
 
 func main() {
+	go canary()
 	vh.Main(gen, func(cases []string) []string {
 		out := make([]string, len(cases))
 		var wg sync.WaitGroup
